@@ -87,6 +87,10 @@ func propC18scc(a *Analysis, r *Registry, b *B) {
 			}
 			return false
 		}
+		// (a test of the bit in either polarity: `flags&F == 0 → return` guards the same block)
+		isBitTest := func(c *RF, v *RF, k int64) bool {
+			return isBit(c, v, k) || isBit(S.Not(c), v, k)
+		}
 		nFlag, badFlag := 0, ""
 		for _, set := range [][]ifRec{ifs, oifs} {
 			for _, f := range set {
@@ -98,6 +102,12 @@ func propC18scc(a *Analysis, r *Registry, b *B) {
 				case isBit(f.c, flags, edgesBit) && f.in.Parent() == outer:
 					// the completion test itself (before the flags are completed)
 				case isBit(f.c, eff, edgesBit), isBit(f.c, eff, compBit):
+				case (isBitTest(f.c, eff, edgesBit) || isBitTest(f.c, eff, compBit)) && func() bool {
+					// the negated test as a guard clause: `if flags&F == 0 { return }`
+					tb := f.in.Block().Succs[0]
+					_, isRet := tb.Instrs[len(tb.Instrs)-1].(*ssa.Return)
+					return isRet && len(tb.Instrs) <= 2
+				}():
 				default:
 					if !strings.Contains(f.c.String(), "land(") && !strings.Contains(f.c.String(), "lor(") {
 						badFlag = a.W.InstrPos(f.in) + ": " + clip(f.c.String(), 160)
@@ -263,7 +273,10 @@ func propC18scc(a *Analysis, r *Registry, b *B) {
 			return
 		}
 		pi, pn := recurrenceOrNil(fc, popI)
-		pinnedPop := pi != nil
+		pinnedPop := pi != nil && pi.Equal(S.MakeFn("len", stackV).Sub(S.Int(1)))
+		if !pinnedPop {
+			pi = nil
+		}
 		if pi == nil {
 			// the component is marked by another kind of loop (e.g. forward over stack[base:] after
 			// the root's position was searched): the clauses below are stated on the pop-from-the-top
@@ -459,8 +472,10 @@ func propC18scc(a *Analysis, r *Registry, b *B) {
 						r.Fail(rB, name+"/connect/dedup", a.W.InstrPos(s.st), "the dedup positions are not loop counters")
 						continue
 					}
-					keep := S.Or(S.Cmp("==", ii, di), S.Cmp("!=", S.MakeFn("idx", outS, di.Sub(S.Int(1))), S.MakeFn("idx", outS, dj)))
-					if when.Equal(keep) || X.EquivByCases(when, keep, 0) {
+					ne := S.Cmp("!=", S.MakeFn("idx", outS, di.Sub(S.Int(1))), S.MakeFn("idx", outS, dj))
+					keep := S.Or(S.Cmp("==", ii, di), ne)
+					keep2 := S.Or(S.Cmp("<=", di, ii), ne) // (the write position never falls below the start)
+					if when.Equal(keep) || X.EquivByCases(when, keep, 0) || when.Equal(keep2) || X.EquivByCases(when, keep2, 0) {
 						r.OK(rB, name+"/connect/dedup/keep-when", a.W.InstrPos(s.st), "an id is kept exactly when it is the first of this component or differs from the last one kept")
 					} else {
 						r.Fail(rB, name+"/connect/dedup/keep-when", a.W.InstrPos(s.st), "an id is kept when "+clip(when.String(), 160)+", not exactly when it is the first or differs from the last kept")
